@@ -46,6 +46,9 @@ class Report:
         self.extra = {}
         self.notes = []
 
+    def lap(self, name):
+        self.notes.append('{}: {:.1f}s'.format(name, time.time() - self.t0))
+
     # -- accumulation --------------------------------------------------
     def add_tlc(self, res, exhaustive=None):
         self.states += res.distinct or 0
